@@ -192,6 +192,36 @@ func vhBuild(ctx int, s []byte) vhCtx {
 		c.preOut = produced
 		c.symStart = w.bitLen()
 		return vhMerge(w, s, c)
+	case ctx == 6:
+		// edge64K inside a dynamic block with very short codes (template 6: 'a', EOB,
+		// length 3 and length 258 all 2 bits, one distance code), so that packed
+		// pair/triple table entries (literal+EOB, literal+literal+EOB, literal+length)
+		// are looked up exactly at the end of the 64 KiB output window
+		k := verifrt.Param("K")
+		lit, dist := vhTemplate(6)
+		d := vbDynHeader(w, false, lit, dist, false)
+		d.sym(w, 97)
+		produced := 1
+		target := 2*historySize - k
+		for produced+258 <= target {
+			d.match(w, 258, 1)
+			produced += 258
+		}
+		for produced+3 <= target {
+			d.match(w, 3, 1)
+			produced += 3
+		}
+		for produced < target {
+			d.sym(w, 97)
+			produced++
+		}
+		c.preOut = produced
+		c.symStart = w.bitLen()
+		c = vhMerge(w, s, c)
+		w2 := &vbw{}
+		vbStored(w2, true, []byte("XYZ"))
+		c.stream = append(c.stream, w2.bytes()...)
+		return c
 	case ctx == 4:
 		// final stored block: header concrete, LEN/NLEN/data symbolic
 		w.bits(1, 1)
